@@ -358,7 +358,7 @@ pub struct RecvModel {
 	pub regs: Vec<RegInfo>,
 	pub parts: Vec<Part>,
 	pub sets: BTreeMap<[u8; 32], PaySet>,
-	/// parts R lost track of through a claim attempt on a set that had lost a part (see `on_claim`)
+	/// parts that were held when a claim attempt released nothing (see `on_claim`); they stay in their set
 	pub orphaned: BTreeSet<usize>,
 }
 
@@ -506,18 +506,24 @@ impl RecvModel {
 
 	/// `claim_funds(preimage)` / `claim_funds_with_known_custom_tlvs`.
 	pub fn on_claim(&mut self, hash: &[u8; 32], known_tlvs: bool) -> ClaimOutcome {
-		let Some(set) = self.sets.remove(hash) else { return ClaimOutcome { what: "nothing-claimable", ..Default::default() } };
+		let Some(set) = self.sets.get(hash).cloned() else { return ClaimOutcome { what: "nothing-claimable", ..Default::default() } };
 		let ids: Vec<usize> = set.parts.iter().map(|(i, _)| *i).collect();
 		// documented: claim_funds "will fail the payment if it has custom TLVs with even type numbers"
 		if !known_tlvs && set.tlvs.iter().any(|(k, _)| k % 2 == 0) {
+			self.sets.remove(hash);
 			return ClaimOutcome { failed: ids, what: "even-tlvs-unknown", ..Default::default() };
 		}
 		let sum: u64 = ids.iter().map(|i| self.parts[*i].amt).sum();
 		match &set.shown {
-			Some(sh) if sh.amount == sum && sh.parts == ids => ClaimOutcome { fulfilled: ids, shown: set.shown.clone(), what: "claimed", ..Default::default() },
+			Some(sh) if sh.amount == sum && sh.parts == ids => {
+				self.sets.remove(hash);
+				ClaimOutcome { fulfilled: ids, shown: set.shown.clone(), what: "claimed", ..Default::default() }
+			},
 			_ => {
-				// a part of what was shown is gone (or nothing was ever shown): nothing is released. The library
-				// forgets the remaining HTLCs here; the documented fail-back rule still applies to them.
+				// a part of what was shown is gone (or this set was never shown): nothing is released, and the
+				// HTLCs that are there stay what they were - held, subject to the MPP timeout and to the
+				// fail-back before their expiry. (They are remembered so that a library that forgets them at
+				// this point is reported under its own key.)
 				for i in ids.iter() {
 					self.orphaned.insert(*i);
 				}
@@ -546,7 +552,6 @@ impl RecvModel {
 
 	pub fn live_parts(&self) -> Vec<usize> {
 		let mut v: Vec<usize> = self.sets.values().flat_map(|s| s.parts.iter().map(|(i, _)| *i)).collect();
-		v.extend(self.orphaned.iter().cloned());
 		v.sort();
 		v
 	}
